@@ -10,11 +10,11 @@ pub fn run(ctx: &Ctx) -> Report {
     let plans: Vec<(&str, Alphabet, usize)> = if ctx.quick() {
         vec![("full alphabet", Alphabet::full(), 3), ("thinned alphabet", Alphabet::thin(), 4)]
     } else {
-        vec![("full alphabet", Alphabet::full(), 4), ("thinned alphabet", Alphabet::thin(), 5)]
+        vec![("full alphabet", Alphabet::full(), 5), ("thinned alphabet", Alphabet::thin(), 5)]
     };
     let mut per = vec![];
     for (name, al, depth) in plans {
-        let r = bfs(ctx, || St::new(template.verif_fork(), u32::MAX as usize), "new()", &al, depth, Modes::default(), 40_000_000);
+        let r = bfs(ctx, || St::new(template.verif_fork(), u32::MAX as usize), "new()", &al, depth, Modes::default(), 400_000_000);
         rep.states += r.states;
         rep.transitions += r.transitions;
         per.push(json!({"alphabet": name, "depth": depth, "states": r.states, "transitions": r.transitions, "per_depth(new_states,transitions)": r.per_depth}));
